@@ -284,6 +284,12 @@ def run(ctx):
         jobs.append(('mon' if k % 2 else 'asan',) + gen_stress(ctx, k))
     for k in range(ctx.n(48, 1200)):
         jobs.append(('mon' if k % 4 == 3 else 'asan',) + gen_stoprace(ctx, k))
+    # flow-control histories of C04 (nested stalls, backlogs larger than the budget, silent time, un-stall in any order): the receiver does the
+    # releasing under the node-table mutex - it has to come back from every notice (no call may wait for that mutex forever)
+    from . import C04
+    for k in range(ctx.n(24, 600)):
+        out = C04.gen_seq(ctx, 200000 + k)
+        jobs.append(('mon' if k % 2 else 'asan', out[0], {'mode': 'flow-control', 'calls': 0}))
     union = {}
     union_all = {}
     calls = 0
